@@ -537,7 +537,7 @@ func execReq(c *fw.Ctx, cs *Case) {
 		return
 	}
 	r := build(cs, "")
-	runReq(c, r, &doubles.InProc{Handler: r.h, Record: true}, nil, true)
+	runReq(c, r, &doubles.InProc{Handler: r.h, Record: true, Shape: cs.Shape}, nil, true)
 }
 
 // runReq sends the request r.cs describes through ip (whose handler serves
@@ -573,6 +573,10 @@ func runReq(c *fw.Ctx, r *rig, ip *doubles.InProc, other *rig, journal bool) {
 	}
 	if r.session != nil {
 		form += ",multi-user"
+	}
+	if cs.Shape != "" {
+		form += ",reshaped-body"
+		c.Observe("body_shape", fmt.Sprintf("%s|%s|%s|%s", cs.Server, cs.Method, cs.Form, cs.Shape), 1)
 	}
 	if panicked {
 		c.Report(fmt.Sprintf("%s|%s|%s|panic:%s", cs.Server, lv, form, fw.PanicSite(stack)), fmt.Sprintf("handler panicked: %v", pv), r.witness(p, nil))
@@ -623,7 +627,7 @@ func runReq(c *fw.Ctx, r *rig, ip *doubles.InProc, other *rig, journal bool) {
 	if checked {
 		c.Observe("cells_checked", cell+"|"+rel, 1)
 		c.Distinct(fmt.Sprintf("%s|%s|%s|%s|%v|p%d|%v|%v%v%v|%s|%s|%v", cell, cs.Form, cs.Depth, rel, cs.Slash, len(cs.Prefix), cs.PrefixSlash,
-			cs.Layout.PSlash, cs.Layout.HSlash, cs.Layout.CSlash, nameClass(p), cs.Spelling, r.session != nil))
+			cs.Layout.PSlash, cs.Layout.HSlash, cs.Layout.CSlash, nameClass(p), cs.Spelling+cs.Shape, r.session != nil))
 		c.Observe("request_target_spelling(judged cells)", spelling, 1)
 		if r.session != nil {
 			c.Observe("multi_user_requests(judged cells)", fmt.Sprintf("%s|user %s|%s|%s", cs.Server, r.user, cs.Method, lv), 1)
